@@ -508,7 +508,7 @@ func run(raw json.RawMessage) (common.Case, error) {
 			if len(hits) > 0 && len(calls) > 0 {
 				partial = true
 			}
-			if len(calls) > 0 && in.MaxSubRequests > 0 {
+			if len(calls) >= 2 || (len(calls) == 1 && in.MaxSubRequests > 0 && len(hits) >= 2) {
 				merged = true
 			}
 		case "get":
@@ -542,7 +542,7 @@ func run(raw json.RawMessage) (common.Case, error) {
 	}
 	c.Obs = obs
 	c.Nontrivial = partial && len(in.Ops) >= 3
-	c.Class = fmt.Sprintf("ops=%s/drop=%v/merge=%v", bucketN(len(in.Ops)), in.Drop > 0, merged)
+	c.Class = fmt.Sprintf("ops=%s/drop=%v/gaps=%v", bucketN(len(in.Ops)), in.Drop > 0, merged)
 	return c, nil
 }
 
@@ -558,7 +558,42 @@ func bucketN(n int) string {
 
 // ---- generator ----------------------------------------------------------------
 
+// genSparse: scattered small reads warm a few subranges, then large reads have to
+// fetch several separate gaps and merge them down to MaxSubRequests.
+func genSparse(r *rand.Rand, tier string) input {
+	var in input
+	in.SubrangeSize = common.Pick(r, int64(1), 1, 2, 3, 4)
+	in.MaxSubRequests = common.Pick(r, 1, 1, 2, 3, 4)
+	in.MaxCacheable = 0
+	in.CacheSeed = r.Int63n(1 << 30)
+	in.Drop = common.Pick(r, 0, 0, 10, 30)
+	in.Evict = common.Pick(r, 0, 50)
+	size := int(in.SubrangeSize)*(6+r.Intn(30)) + r.Intn(int(in.SubrangeSize))
+	if tier == "thorough" {
+		size = int(in.SubrangeSize)*(6+r.Intn(150)) + r.Intn(int(in.SubrangeSize))
+	}
+	in.Objects = map[string]int{"top": size}
+	nSmall := 1 + r.Intn(6)
+	for i := 0; i < nSmall; i++ {
+		in.Ops = append(in.Ops, opIn{Kind: "getrange", Name: "top", Off: r.Int63n(int64(size)), Len: 1 + r.Int63n(2*in.SubrangeSize)})
+	}
+	nBig := 1 + r.Intn(3)
+	for i := 0; i < nBig; i++ {
+		off := r.Int63n(int64(size)/3 + 1)
+		in.Ops = append(in.Ops, opIn{Kind: "getrange", Name: "top", Off: off, Len: int64(size) - off - r.Int63n(int64(size)/4+1) + r.Int63n(3)})
+	}
+	for i := range in.Ops {
+		if in.Ops[i].Len <= 0 {
+			in.Ops[i].Len = 1
+		}
+	}
+	return in
+}
+
 func genOne(r *rand.Rand, tier string) input {
+	if r.Intn(4) == 0 {
+		return genSparse(r, tier)
+	}
 	var in input
 	in.SubrangeSize = common.Pick(r, int64(1), 2, 3, 4, 5, 7, 8, 10, 16, 100)
 	in.MaxSubRequests = common.Pick(r, 0, 0, 1, 1, 2, 3, 5)
